@@ -672,7 +672,7 @@ def flags_with(toggle):
 
 
 CASE_KINDS = [("plain", 22), ("text", 10), ("missing", 12), ("clean-missing", 6), ("unusedfb", 6), ("invalid", 10),
-              ("rootinc", 16), ("bigtext", 6), ("rootbase", 5), ("cycle1", 5), ("cycle2", 5), ("cycle3", 4), ("cycle4", 3),
+              ("rootinc", 16), ("bigtext", 4), ("rootbase", 5), ("cycle1", 5), ("cycle2", 5), ("cycle3", 4), ("cycle4", 3),
               ("cycle5", 3), ("mixed", 3)]
 
 
@@ -718,7 +718,7 @@ def run(ctx):
     xh = ctx.harness("C20")
 
     acc = {}
-    nchunks = 1 if (ctx.tier == "quick" or ctx.replay) else 75          # 400 file trees per chunk
+    nchunks = 1 if (ctx.tier == "quick" or ctx.replay) else 30          # 400 file trees per chunk (about 40 s each)
     for chunk in range(nchunks):
         work = os.path.join(WORK, "%s-%d-%d" % (ctx.seed, os.getpid(), chunk))
         shutil.rmtree(work, ignore_errors=True)
